@@ -179,6 +179,8 @@ Section ReceiveProofs.
       destruct blk as [|row blk]; [inversion E; subst; apply only_blkidx_bump|].
       destruct (widths_ok (length (tb_columns tbl)) (row :: blk));
         [|inversion E; subst; apply only_blkidx_bump].
+      destruct (pick_rows (row :: blk) (tb_pk tbl)) as [[]|e0|];
+        try (inversion E; subst; apply only_blkidx_bump).
       destruct (set_ok fp 1 (bump_gets st)); [|inversion E; subst; apply only_blkidx_bump].
       assert (Hb : only_blkidx st (add_blkidx (bump_gets st) (idx_sum sum (tb_pk tbl)))).
       { eapply only_blkidx_trans; [apply only_blkidx_bump|apply only_blkidx_add]. }
@@ -199,6 +201,7 @@ Section ReceiveProofs.
       destruct rb as [blk|e|]; try discriminate.
       destruct blk as [|row blk]; [discriminate|].
       destruct (widths_ok (length (tb_columns tbl)) (row :: blk)); [|discriminate].
+      destruct (pick_rows (row :: blk) (tb_pk tbl)) as [[]|e0|]; try discriminate.
       destruct (set_ok fp 1 (bump_gets st)); [|discriminate].
       unfold idx in E. destruct (nth_error (tb_indices tbl) i) as [x|] eqn:En; [|discriminate].
       destruct (beqb (idx_sum sum (tb_pk tbl)) x) eqn:Eb; [|discriminate].
@@ -231,7 +234,7 @@ Section ReceiveProofs.
     destruct (dec_on (table_read pc) b) as [rt m0] eqn:Ed.
     destruct rt as [tbl|e|]; try (intros E; inversion E; subst; split; [assumption|apply ext_refl]).
     unfold index_table.
-    destruct (existsb (fun k => N.of_nat (length (tb_columns tbl)) <=? k) (tb_pk tbl)).
+    destruct (pk_out_of_range (length (tb_columns tbl)) (tb_pk tbl)).
     { intros E; inversion E; subst. split; [assumption|apply ext_refl]. }
     destruct (index_blocks unz idx_sum pc fp st tbl (tb_blocks tbl) 0 0) as [[r0 st0] m1] eqn:Ei.
     pose proof (index_blocks_only _ _ _ _ _ _ _ _ Ei) as Ho0.
@@ -435,21 +438,38 @@ Section ReceiveTotal.
     destruct (dec_on (block_read pc) dst) as [r m]. exact Hg.
   Qed.
 
+  Lemma pick_rows_ok ncols pk : pk_out_of_range ncols pk = false ->
+    forall blk, widths_ok ncols blk = true -> pick_rows blk pk = Ok tt.
+  Proof.
+    intros Hpk. unfold pk_out_of_range in Hpk.
+    assert (Hrow : forall row, length row = ncols -> pick_row row pk = Ok tt).
+    { intros row Hl. induction pk as [|k pk IH]; cbn [pick_row]; [reflexivity|].
+      cbn [existsb] in Hpk. apply orb_false_iff in Hpk. destruct Hpk as [Hk Hpk'].
+      apply N.leb_gt in Hk. unfold pick. rewrite Hl.
+      replace (N.of_nat ncols <=? k) with false by (symmetry; apply N.leb_gt; exact Hk).
+      destruct (idx_ok row (N.to_nat k) ltac:(lia)) as (x & -> & _). now apply IH. }
+    induction blk as [|row blk IH]; intros Hw; cbn [pick_rows]; [reflexivity|].
+    cbn [widths_ok forallb] in Hw. apply andb_true_iff in Hw. destruct Hw as [Hl Hw].
+    apply Nat.eqb_eq in Hl. rewrite (Hrow row Hl). now apply IH.
+  Qed.
+
   Lemma index_blocks_good tbl : forall blocks st i m,
+    pk_out_of_range (length (tb_columns tbl)) (tb_pk tbl) = false ->
     (i + length blocks <= length (tb_indices tbl))%nat ->
     good_res (fst (fst (index_blocks unz idx_sum pc fp st tbl blocks i m))).
   Proof.
-    induction blocks as [|sum blocks IH]; intros st i m Hl; cbn [index_blocks length] in *.
+    induction blocks as [|sum blocks IH]; intros st i m Hpk Hl; cbn [index_blocks length] in *.
     - split; discriminate.
     - pose proof (get_block_good st sum) as Hg.
       destruct (get_block unz pc fp st sum) as [rb mb]. cbn [fst] in Hg.
       destruct rb as [blk|e|]; [|split; discriminate|destruct Hg; congruence].
       destruct blk as [|row blk]; [split; discriminate|].
-      destruct (widths_ok (length (tb_columns tbl)) (row :: blk)); [|split; discriminate].
+      destruct (widths_ok (length (tb_columns tbl)) (row :: blk)) eqn:Ew; [|split; discriminate].
+      rewrite (pick_rows_ok _ _ Hpk _ Ew).
       destruct (set_ok fp 1 (bump_gets st)); [|split; discriminate].
       destruct (idx_ok (tb_indices tbl) i ltac:(lia)) as (x & -> & _).
       destruct (beqb (idx_sum sum (tb_pk tbl)) x); [|split; discriminate].
-      apply IH. lia.
+      apply IH; [exact Hpk|lia].
   Qed.
 
   Lemma profile_blocks_good : forall blocks st m,
@@ -470,8 +490,8 @@ Section ReceiveTotal.
     destruct rt as [tbl|e|]; [|cbn [fst]; exact (good_err_cast _ Hg)|exact (good_panic_absurd _ Hg)].
     destruct (HR tbl eq_refl) as (_ & Hlen).
     unfold index_table.
-    destruct (existsb (fun k => N.of_nat (length (tb_columns tbl)) <=? k) (tb_pk tbl)); [split; discriminate|].
-    pose proof (index_blocks_good tbl (tb_blocks tbl) st 0 0 ltac:(lia)) as Hi.
+    destruct (pk_out_of_range (length (tb_columns tbl)) (tb_pk tbl)) eqn:Epk; [split; discriminate|].
+    pose proof (index_blocks_good tbl (tb_blocks tbl) st 0 0 Epk ltac:(lia)) as Hi.
     destruct (index_blocks unz idx_sum pc fp st tbl (tb_blocks tbl) 0 0) as [[r0 st0] m1]. cbn [fst] in Hi.
     destruct r0 as [[]|e|]; [|cbn [fst]; exact (good_err_cast _ Hi)|exact (good_panic_absurd _ Hi)].
     destruct (set_ok fp 3 st0); [|split; discriminate].
@@ -654,3 +674,17 @@ Proof.
   - destruct (dec_on (block_read precap_of_code) dst), (dec_on blockindex_read dst). cbn [snd]. lia.
   - cbn [snd]. lia.
 Qed.
+
+(** the primary-key range guard of IndexTable is what keeps slice.IndicesToValues in range:
+    the weaker "largest index <= column count" lets pk = [2] over 2 columns through, and the
+    loop of IndexTable then panics on a perfectly well-formed one-row block *)
+Definition pkw_block : bytes := [0; 0; 0; 1; 0; 0; 0; 2; 0; 1; 97; 0; 1; 98].
+Definition pkw_store : store := add_blk empty_store [1] pkw_block.
+Definition pkw_table : table := mk_table [[99]; [100]] [2] 1 [[1]] [[9]].
+
+Theorem pk_weak_guard_panics :
+  pk_out_of_range (length (tb_columns pkw_table)) (tb_pk pkw_table) = true /\
+  pk_out_of_range_weak (length (tb_columns pkw_table)) (tb_pk pkw_table) = false /\
+  fst (fst (index_blocks (fun b => Some b) (fun _ _ => []) precap_of_code no_faults
+                         pkw_store pkw_table (tb_blocks pkw_table) 0 0)) = Panic.
+Proof. repeat split; vm_compute; reflexivity. Qed.
